@@ -944,6 +944,10 @@ func (g *Gen) ret(in *ssa.Return, st *State, reach string) {
 		if !clauseActive(cl, g.fmode) {
 			continue
 		}
+		if cl.Assumed {
+			g.trusted["assumed postcondition of "+g.shortName()+": "+cl.Src] = true
+			continue
+		}
 		s := g.mustEval(cl, env)
 		lab := cl.Label
 		if lab == "" {
@@ -971,12 +975,7 @@ func (g *Gen) ret(in *ssa.Return, st *State, reach string) {
 			g.addObl("frame", fmt.Sprintf("%s@r%d", k, g.retOrd[in]), implies(reach, fmt.Sprintf("(forall ((r! Int)) (=> (<= r! alloc!0) (= (select %s r!) (select %s r!))))", cur, init)), in.Pos(), "heap "+k+" not in modifies clause is unchanged on existing objects", nil)
 		}
 	}
-	// ghost variables not listed in modifies are unchanged (also for PA / "modifies *" functions)
-	for _, gh := range sortedKeys(st.ghost) {
-		if !containsStr(g.con.Modifies, gh) && st.ghost[gh] != g.ghostGet(g.entry, gh) {
-			g.addObl("frame", fmt.Sprintf("ghost.%s@r%d", gh, g.retOrd[in]), implies(reach, "(= "+st.ghost[gh]+" "+g.ghostGet(g.entry, gh)+")"), in.Pos(), "ghost "+gh+" unchanged", nil)
-		}
-	}
+	// ghost variables: framing is by call-graph reachability (see contractCall / cha.go), not by obligations
 	co := g.addObl("cover", fmt.Sprintf("ret%d", g.retOrd[in]), reach, in.Pos(), fmt.Sprintf("return at line %d reachable", line), nil)
 	co.Cover = true
 }
